@@ -61,6 +61,13 @@ theorem isPrefix_iff (p d : Pattern) : isPrefix p d = true ↔ p <+: d := by
 theorem prefix_eq_of_length_eq {a b d : Pattern} (ha : a <+: d) (hb : b <+: d) (h : a.length = b.length) : a = b := by
   rw [List.prefix_iff_eq_take.mp ha, List.prefix_iff_eq_take.mp hb, h]
 
+/-- Gen obligation: the comparison in the loop of `_check_for_answers` prefers the strictly longer match
+(what it does for equal lengths is irrelevant: two prefixes of the same data of equal length are equal) -/
+theorem checkBetter_spec (a b : Nat) :
+    (b < a → Gen.C10.checkBetter a b = true) ∧ (a < b → Gen.C10.checkBetter a b = false) := by
+  simp only [Gen.C10.checkBetter, decide_eq_true_eq, decide_eq_false_iff_not]
+  omega
+
 theorem longestMatch_spec (data : Pattern) (d : Dict) (lm : Pattern) (hlm : lm <+: data) :
     let r := longestMatch data d lm
     r <+: data ∧ (r = lm ∨ r ∈ keys d) ∧ lm.length ≤ r.length ∧ ∀ q ∈ keys d, q <+: data → q.length ≤ r.length := by
@@ -73,8 +80,12 @@ theorem longestMatch_spec (data : Pattern) (d : Dict) (lm : Pattern) (hlm : lm <
     · have hpd := (isPrefix_iff p data).mp hp
       have htake : data.take p.length = p := (List.prefix_iff_eq_take.mp hpd).symm
       simp only [hp, if_true, htake]
-      by_cases hge : p.length ≥ lm.length
-      · simp only [hge, if_true]
+      by_cases hgb : Gen.C10.checkBetter p.length lm.length = true
+      · have hge : p.length ≥ lm.length := by
+          rcases Nat.lt_or_ge p.length lm.length with h | h
+          · rw [(checkBetter_spec _ _).2 h] at hgb; cases hgb
+          · exact h
+        simp only [hgb, if_true]
         obtain ⟨h1, h2, h3, h4⟩ := ih p hpd
         refine ⟨h1, ?_, by omega, ?_⟩
         · rcases h2 with h2 | h2
@@ -85,7 +96,11 @@ theorem longestMatch_spec (data : Pattern) (d : Dict) (lm : Pattern) (hlm : lm <
           rcases hq with rfl | hq
           · exact h3
           · exact h4 q hq hqd
-      · simp only [hge, if_false]
+      · have hge : p.length ≤ lm.length := by
+          rcases Nat.lt_or_ge lm.length p.length with h | h
+          · exact absurd ((checkBetter_spec _ _).1 h) hgb
+          · exact h
+        simp only [hgb, Bool.false_eq_true, if_false]
         obtain ⟨h1, h2, h3, h4⟩ := ih lm hlm
         refine ⟨h1, ?_, h3, ?_⟩
         · rcases h2 with h2 | h2
@@ -205,7 +220,7 @@ theorem sendCore_fresh {c : Cfg} (hc : c.Repaired) (s : State) (pk : Pk) (ex : P
   | none => simp [hc.arms, hc.transmits]
   | some l =>
     simp only [hc.arms, hc.transmits, Option.isSome_none, Bool.false_eq_true, if_false, Bool.not_false,
-      Bool.true_and, Bool.false_and, Bool.or_false, Bool.and_true, Bool.true_or, if_true]
+      Bool.true_and, Bool.false_and, Bool.or_false, Bool.and_true, if_true]
     by_cases h1 : ex = []
     · subst h1; simp [mkTx, hl]
     · cases hnr : l.needsResending <;> simp [h1, mkTx, mkTimer, hl]
@@ -227,9 +242,9 @@ theorem sendCore_retry {c : Cfg} (hc : c.Repaired) (s : State) (pk : Pk) (pat : 
     simp only [hc.arms, hc.transmits, Option.isSome_some, Bool.true_and, Bool.not_true, Bool.false_and,
       Bool.false_or, if_true]
     by_cases h1 : dget s.patterns pat = some i
-    · simp [h1, mkTx, mkTimer, hl]
+    · simp [h1, mkTx, mkTimer]
     · have : (dget s.patterns pat == some i) = false := by simpa using h1
-      simp [h1, this, hl]
+      simp [h1, this]
 
 theorem forget_tt (s : State) :
     forget true true s = { s with timers := cancelAll s.timers s.patterns, patterns := [] } := rfl
@@ -721,11 +736,11 @@ theorem inv_sameReq {s s' : State} {e : Ev} (hI : Inv s) (h : Shape s e s') :
 
 theorem find?_cons_ne {x : Tx} {log : List Tx} {r : Nat} (h : x.req ≠ r) :
     (x :: log).find? (fun y => y.req == r) = log.find? (fun y => y.req == r) := by
-  simp [List.find?_cons, h]
+  simp [h]
 
 theorem find?_cons_eq {x : Tx} {log : List Tx} {r : Nat} (h : x.req = r) :
     (x :: log).find? (fun y => y.req == r) = some x := by
-  simp [List.find?_cons, h]
+  simp [h]
 
 theorem inv_last {s s' : State} {e : Ev} (hI : Inv s) (h : Shape s e s') :
     ∀ (p : Pattern) (i : Nat) (t : Timer), dget s'.patterns p = some i → s'.timers[i]? = some t →
